@@ -9,6 +9,7 @@ import (
 	"encoding/json"
 	"fmt"
 	"os"
+	"path/filepath"
 	"strings"
 )
 
@@ -58,6 +59,18 @@ func main() {
 			if lf, err := os.OpenFile(f, os.O_APPEND|os.O_CREATE|os.O_WRONLY, 0o644); err == nil {
 				fmt.Fprintf(lf, "%s", meta)
 				lf.Close()
+			}
+		}
+		// installed under the name "convflaky" the converter dies the first time it is handed a stream (once per
+		// stream; the marker lives next to the converter directory, which belongs to one service instance)
+		if filepath.Base(os.Args[0]) == "convflaky" {
+			var m struct{ StreamID uint64 }
+			json.Unmarshal([]byte(meta), &m)
+			marker := filepath.Join(filepath.Dir(filepath.Dir(os.Args[0])), fmt.Sprintf("convflaky-died-on-%d", m.StreamID))
+			if _, err := os.Stat(marker); err != nil {
+				os.WriteFile(marker, nil, 0o644)
+				fmt.Fprintf(os.Stderr, "dying once on %s", meta)
+				os.Exit(3)
 			}
 		}
 		// failure modes for the race pass: the process dies / breaks the protocol on a stream whose
